@@ -18,6 +18,7 @@ from dataclasses import dataclass
 from itertools import product
 from typing import Any, Callable
 
+from . import bits as B
 from .astx import walk_local
 from .cfg import CFG, Node
 from .exctable import ExcTable
@@ -100,6 +101,8 @@ def truth(v: Any) -> bool | None:
         return None
     if isinstance(v, Obj):
         return True
+    if isinstance(v, (B.BitRec, B.SymBits)):
+        return B.truth(v)
     if isinstance(v, Sym):
         return True if v.name.startswith("obj:") else None
     try:
@@ -117,6 +120,12 @@ def sym_eq(a: Any, b: Any) -> bool | None:
     if a is UNKNOWN or b is UNKNOWN:
         return None
     if isinstance(a, _Unred) or isinstance(b, _Unred):
+        return None
+    if isinstance(a, (B.BitRec, B.SymBits)) or isinstance(b, (B.BitRec, B.SymBits)):
+        if isinstance(a, (B.BitRec, B.SymBits, int)) and isinstance(b, (B.BitRec, B.SymBits, int)):
+            return B.eq(a, b)
+        if a is None or b is None:
+            return False
         return None
     if isinstance(a, Obj) or isinstance(b, Obj):
         if isinstance(a, Obj) and isinstance(b, Obj):
@@ -267,7 +276,7 @@ class AbsMachine:
             return None if r is None else not r
         if isinstance(a, SymInt) and isinstance(b, SymInt) and a.base == b.base and a.mod is None and b.mod is None:
             a, b = a.off, b.off  # same unbounded symbolic base: ordering of the offsets
-        if any(x is UNKNOWN or isinstance(x, (Sym, SymInt, _Unred, Obj)) for x in (a, b)):
+        if any(x is UNKNOWN or isinstance(x, (Sym, SymInt, _Unred, Obj, B.BitRec, B.SymBits)) for x in (a, b)):
             return None
         try:
             if isinstance(op, ast.Lt):
@@ -290,6 +299,22 @@ class AbsMachine:
     def _binop(op: ast.operator, a: Any, b: Any) -> Any:
         if a is UNKNOWN or b is UNKNOWN:
             return UNKNOWN
+        if isinstance(a, (B.BitRec, B.SymBits)) or isinstance(b, (B.BitRec, B.SymBits)):
+            r = None
+            if isinstance(op, ast.BitAnd):
+                if isinstance(b, int) and not isinstance(b, bool):
+                    r = B.band(a, b)
+                elif isinstance(a, int) and not isinstance(a, bool):
+                    r = B.band(b, a)
+            elif isinstance(op, ast.RShift) and isinstance(b, int):
+                r = B.shr(a, b)
+            elif isinstance(op, ast.LShift) and isinstance(b, int):
+                r = B.shl(a, b)
+            elif isinstance(op, ast.BitOr):
+                r = B.bor(a, b)
+            elif isinstance(op, ast.Add):
+                r = B.add(a, b)
+            return UNKNOWN if r is None else r
         if isinstance(a, (SymInt, _Unred)) and isinstance(b, int):
             if isinstance(op, (ast.Add, ast.Sub)):
                 k = b if isinstance(op, ast.Add) else -b
